@@ -26,6 +26,10 @@ pub trait Payload: Clone + PartialEq + std::fmt::Debug + 'static {
     fn clones_alive(_ctx: &Self::Ctx) -> i64 {
         0
     }
+    /// serialise + deserialise an arena of this payload (only `Plain` in the `deser` build)
+    fn roundtrip(_arena: &indextree::Arena<Self>) -> Option<Result<(indextree::Arena<Self>, usize), String>> {
+        None
+    }
 }
 
 #[derive(Clone, PartialEq, Eq, Debug, Serialize, Deserialize)]
@@ -37,6 +41,20 @@ pub struct Plain {
 impl Payload for Plain {
     type Ctx = ();
     const TRACKS_DROPS: bool = false;
+    #[cfg(feature = "deser")]
+    fn roundtrip(arena: &indextree::Arena<Self>) -> Option<Result<(indextree::Arena<Self>, usize), String>> {
+        let r = (|| {
+            let txt = serde_json::to_string(arena).map_err(|e| format!("serialize: {e}"))?;
+            let copy: indextree::Arena<Plain> = serde_json::from_str(&txt).map_err(|e| format!("deserialize: {e}"))?;
+            // the copy must serialise to the same text (nothing lost, nothing invented)
+            let txt2 = serde_json::to_string(&copy).map_err(|e| format!("serialize copy: {e}"))?;
+            if txt2 != txt {
+                return Err("the copy serialises to a different text than the original".to_string());
+            }
+            Ok((copy, txt.len()))
+        })();
+        Some(r)
+    }
     fn make(_: &(), serial: u64, val: u32) -> Self {
         Plain { serial, val }
     }
